@@ -98,6 +98,36 @@ theorem no_diagnostics_for_non_files (hF : Frame ck) (hL : LocalW ck) (hK : Kind
   obtain ⟨c, hc, _⟩ := this
   rw [hk] at hc; cases hc
 
+/-- **`checked_tracks_sources`**: after every history, `checked_modules` has an entry for exactly
+the current source modules: keys(checked_modules) = keys(parsed_modules) = keys(string_sources)
+(the last equality is built into the model: the two maps are one).  This is the announcement
+hypothesis of C11's GC theorem.  No hypothesis on the checker. -/
+theorem checked_tracks_sources (S0 : Sources Mod Content) (ops : List (Op Mod Content)) (m : Mod) :
+    m ∈ (run ck ops (fresh ck S0)).checked ↔
+      (lookup (run ck ops (fresh ck S0)).sources m).isSome = true := by
+  have : CheckedOk (run ck ops (fresh ck S0)) := by
+    unfold run
+    exact foldl_inv CheckedOk (step ck) ops (fun s o _ hs => step_checked ck s o hs) _
+      (fresh_checked ck S0)
+  exact this m
+
+/-- **The LSP handlers have the file-system effect of the notifications** (`main.rs`
+did_change / did_create_files / did_rename_files / did_delete_files → update / rename_module /
+remove), deletes of files the server has never heard of (mapped to ROOT) included. -/
+theorem lsp_glue_file_view (S : Sources Mod Content) (evs : List (Event Mod Content))
+    (h : ∀ ev ∈ evs, EventNoRoot ck.root ev) :
+    applyOps ck.root (evs.map (glue ck.root)) S = applyEvents ck.root evs S :=
+  glue_file_view_run ck.root evs h S
+
+/-- **End to end**: after any sequence of LSP notifications the server holds, for every module,
+the diagnostics of a freshly started server on the files as the notifications left them. -/
+theorem lsp_events_refine_fresh (hF : Frame ck) (hL : LocalW ck) (hK : Kinds ck)
+    (S0 : Sources Mod Content) (evs : List (Event Mod Content))
+    (h : ∀ ev ∈ evs, EventNoRoot ck.root ev) (k : Mod) (e : Err) :
+    e ∈ getErrors (run ck (evs.map (glue ck.root)) (fresh ck S0)) k ↔
+      e ∈ getErrors (fresh ck (applyEvents ck.root evs S0)) k := by
+  rw [(incremental_refines_fresh ck hF hL hK S0 _).1 k e, lsp_glue_file_view ck S0 evs h]
+
 end Theorems
 
 /-! ## Regression witnesses of the fixed findings, and non-vacuity -/
@@ -198,6 +228,12 @@ example :
         getErrors (fresh ckForeign (applyOps 99 ops S0)) k) ∧
       getErrors (run ckForeign (ops.take 3) (fresh ckForeign S0)) 1 = [1] := by
   decide
+
+/-- LSP glue: deleting a file the server has never heard of (and one it knows) after a rename. -/
+example : applyEvents 99 [.didRename [(1, 3)], .didDelete [none, some 2], .didChange 4 [3],
+      .didCreate [(5, none), (6, some [])]] [(1, []), (2, [3])]
+    = [(6, []), (4, [3]), (3, [])] := by decide
+example : glue 99 (.didDelete [none, some 2] : Event Nat (List Nat)) = .remove [99, 2] := rfl
 
 /-- `transitive_is_reachability` on a cyclic graph with a missing node. -/
 example : transitiveSet (fun x => if x = 1 then [2, 7] else if x = 2 then [1] else []) [1, 2, 7] [2]
